@@ -12,7 +12,7 @@ import (
 
 // exactProfiles must replay bit-identically (full decision + event trace); the others run
 // library goroutines the simulator does not schedule and are compared on verdicts only.
-var exactProfiles = []string{"C01", "C02", "C03", "C04", "C04bias", "C04multi", "C04crash", "C05sys", "C05ring", "C06", "C06clean", "C08", "C08multi", "ROUTEmulti", "C09", "C20", "C20route"}
+var exactProfiles = []string{"C01", "C02", "C03", "C04", "C04bias", "C04multi", "C04crash", "C04restart", "C05sys", "C05ring", "C06", "C06clean", "C08", "C08multi", "ROUTEmulti", "C09", "C20", "C20route"}
 var verdictProfiles = []string{"C07", "C10", "C11", "C11race", "C19"}
 
 // cmdSelftest: determinism meta-check. Every seed is executed in several fresh processes at
